@@ -535,6 +535,18 @@ def _gen_spec_once(rng, pf):
                     values[p["name"]][pop] = {"a": _gen_duration(rng, dt, vclass)}
                 else:
                     values[p["name"]][pop] = _gen_series(rng, pf, p["format"], vclass, years)
+    # negative *data* on transition parameters that have neither a function nor a lower limit (a negative transition parameter
+    # gives zero flow, never a reverse flow)
+    if negative_ok:
+        for p in pars:
+            if p["db"] and not p["timed"] and p["function"] is None and p["min"] is None and p["format"] in ("probability", "rate", "number") and p["name"].startswith("q") and rng.random() < 0.4:
+                pop = pops[int(rng.integers(0, len(pops)))]
+                v = values[p["name"]][pop]
+                if "a" in v:
+                    v["a"] = -abs(v["a"]) - 0.1
+                else:
+                    k = int(rng.integers(0, len(v["v"])))
+                    v["v"] = [(-abs(x) - 0.1) if (i >= k) else x for i, x in enumerate(v["v"])]
     # plain junctions need a positive proportion somewhere
     for j in juncs:
         outs = [(a, b) for (a, b) in trans if a == j]
